@@ -42,3 +42,75 @@ Proof. exact FlagsProofs.map_order_same_object. Qed.
    (without SortMapKeys iff with it); when it succeeds the members are permuted. *)
 Theorem c14_map_error_order : map_error_order_statement.
 Proof. exact FlagsProofs.map_error_order. Qed.
+
+(* ---------------------------------------------------------------------------------------------------------------
+   STRUCTURAL PART: the flags of json.Append / json.Parse on the value-tree model of C01/C02 (Json/TreeModel.v) with
+   the flag word explicit (Json/TreeFlagsModel.v: jenc_f html ord, jdec_f nocase strict; the order in which an unsorted
+   map is written is an arbitrary admissible oracle, and in the relational form penc every map occurrence is permuted
+   independently). Tied to /repo and to encoding/json by the f.tree.* cases of harness/c14tree.go on every run.
+   TrustRawMessage and the DontCopy / ZeroCopy flags have no effect on the VALUES of this universe (no RawMessage;
+   aliasing is the subject of C10).
+   --------------------------------------------------------------------------------------------------------------- *)
+From Verif Require Import Base.GoInt Json.TreeModel Json.TreeSpec Json.TreeFlagsModel Json.TreeFlagsSpec.
+From Verif Require Json.TreeFlagsProofs.
+
+
+(* Append with EscapeHTML and SortMapKeys is the Marshal model of Json/TreeModel.v, token by token *)
+Theorem c14tree_flags_default_toks : flags_default_toks_statement. Proof. exact TreeFlagsProofs.flags_default_toks. Qed.
+(* ... and byte by byte *)
+Theorem c14tree_flags_default : flags_default_statement. Proof. exact TreeFlagsProofs.flags_default. Qed.
+(* Parse with no flag is the Unmarshal model of Json/TreeModel.v, for every target, input and fuel *)
+Theorem c14tree_parse_default_inner : parse_default_inner_statement. Proof. exact TreeFlagsProofs.parse_default_inner. Qed.
+Theorem c14tree_parse_default : parse_default_statement. Proof. exact TreeFlagsProofs.parse_default. Qed.
+(* for the field names of the universe the plain and the HTML key fragment are the name between quotes *)
+Theorem c14tree_key_fragment : key_fragment_statement. Proof. exact TreeFlagsProofs.key_fragment. Qed.
+(* the sorted order and the two unsorted orders of the examples are admissible order oracles *)
+Theorem c14tree_ord_examples : ord_examples_statement. Proof. exact TreeFlagsProofs.ord_examples. Qed.
+(* Append under any EscapeHTML setting and any member order decodes to the value of the default output *)
+Theorem c14tree_append_flags_meaning : append_flags_meaning_statement. Proof. exact TreeFlagsProofs.append_flags_meaning. Qed.
+Theorem c14tree_append_flags_same_value : append_flags_same_value_statement. Proof. exact TreeFlagsProofs.append_flags_same_value. Qed.
+(* ... and is a JSON text of the RFC 8259 grammar *)
+Theorem c14tree_append_flags_valid : append_flags_valid_statement. Proof. exact TreeFlagsProofs.append_flags_valid. Qed.
+(* EscapeHTML: one string literal differs only in the bytes 3c 3e 26, raw against escaped *)
+Theorem c14tree_escape_html_string : escape_html_string_statement. Proof. exact TreeFlagsProofs.escape_html_string. Qed.
+(* EscapeHTML: the same token structure, only string tokens differ, as above *)
+Theorem c14tree_escape_html_only_strings : escape_html_only_strings_statement. Proof. exact TreeFlagsProofs.escape_html_only_strings. Qed.
+(* SortMapKeys clear: the members written for a map are a permutation of the sorted ones *)
+Theorem c14tree_unsorted_is_permutation : unsorted_is_permutation_statement. Proof. exact TreeFlagsProofs.unsorted_is_permutation. Qed.
+(* ... and with at most one entry per map the bytes are those of the sorted encoding *)
+Theorem c14tree_unsorted_small_maps : unsorted_small_maps_statement. Proof. exact TreeFlagsProofs.unsorted_small_maps. Qed.
+(* on the package's own output (any AppendFlags, any white space) DontMatchCaseInsensitiveStructFields and
+   DisallowUnknownFields do not change the decoded value *)
+Theorem c14tree_parse_flags_ws_meaning : parse_flags_ws_meaning_statement. Proof. exact TreeFlagsProofs.parse_flags_ws_meaning. Qed.
+Theorem c14tree_parse_flags_meaning : parse_flags_meaning_statement. Proof. exact TreeFlagsProofs.parse_flags_meaning. Qed.
+(* boundary: a key differing by case is matched, left out or rejected according to the two flags *)
+Theorem c14tree_nocase_changes_foreign_documents : nocase_changes_foreign_documents_statement. Proof. exact TreeFlagsProofs.nocase_changes_foreign_documents. Qed.
+(* boundary: an unknown key is an error exactly under DisallowUnknownFields *)
+Theorem c14tree_strict_changes_foreign_documents : strict_changes_foreign_documents_statement. Proof. exact TreeFlagsProofs.strict_changes_foreign_documents. Qed.
+(* the ParseFlags equation does not extend to every document *)
+Theorem c14tree_parse_flags_all_documents_refuted : parse_flags_all_documents_refuted_statement. Proof. exact TreeFlagsProofs.parse_flags_all_documents_refuted. Qed.
+(* the AppendFlags do change the bytes *)
+Theorem c14tree_append_flags_bytes_refuted : append_flags_bytes_refuted_statement. Proof. exact TreeFlagsProofs.append_flags_bytes_refuted. Qed.
+(* EscapeHTML: a value whose strings and keys hold none of the bytes 3c 3e 26 is written identically *)
+Theorem c14tree_no_html_same_bytes : no_html_same_bytes_statement. Proof. exact TreeFlagsProofs.no_html_same_bytes. Qed.
+(* EVERY document: a success under DisallowUnknownFields is the same success under the target flags (source
+   DontMatchCaseInsensitiveStructFields set, or target clear), at the level of one decode function *)
+Theorem c14tree_strict_success_stable_inner : strict_success_stable_inner_statement. Proof. exact TreeFlagsProofs.strict_success_stable_inner. Qed.
+(* ... and of Parse *)
+Theorem c14tree_strict_success_stable : strict_success_stable_statement. Proof. exact TreeFlagsProofs.strict_success_stable. Qed.
+(* EVERY document: DisallowUnknownFields only rejects, it never changes a decoded value *)
+Theorem c14tree_strict_only_rejects : strict_only_rejects_statement. Proof. exact TreeFlagsProofs.strict_only_rejects. Qed.
+(* EVERY document: accepted under both struct-key flags, the same value under every setting of the two and by Unmarshal *)
+Theorem c14tree_exact_strict_universal : exact_strict_universal_statement. Proof. exact TreeFlagsProofs.exact_strict_universal. Qed.
+(* the remaining direction fails: adding DontMatchCaseInsensitiveStructFields can change an accepted document's value *)
+Theorem c14tree_strict_success_not_stable : strict_success_not_stable_statement. Proof. exact TreeFlagsProofs.strict_success_not_stable. Qed.
+(* SortMapKeys clear in full generality (every map occurrence in an order of its own, relation penc): what the oracle
+   encoder writes is such an encoding *)
+Theorem c14tree_penc_of_ord : penc_of_ord_statement. Proof. exact TreeFlagsProofs.penc_of_ord. Qed.
+(* ... every such encoding, with any white space, decodes under every setting of the two struct-key flags to the value
+   of the default output *)
+Theorem c14tree_parse_flags_rel_meaning : parse_flags_rel_meaning_statement. Proof. exact TreeFlagsProofs.parse_flags_rel_meaning. Qed.
+(* ... by Unmarshal too, and it is a JSON text of the grammar *)
+Theorem c14tree_append_rel_meaning : append_rel_meaning_statement. Proof. exact TreeFlagsProofs.append_rel_meaning. Qed.
+(* the relation covers encodings that no order oracle writes (two equal maps in different orders) *)
+Theorem c14tree_penc_more_general : penc_more_general_statement. Proof. exact TreeFlagsProofs.penc_more_general. Qed.
